@@ -688,6 +688,25 @@ func c13(r *mon.Run) {
 	neverMade := []string{"nosuch(a)", "abs()", "abs(a, a)", "length()", "abs('x')", "sort_by(a)", "map(a, a)", "nosuch()", "join(`1`, a)", "not_null()", "merge(`1`)", "abs(&a)", "UPPER(a)", "to_string()", "max_by(a, a)"}
 	neverCtx := []string{"t || %s", "z && %s", "ea[*].%s", "ea[?%s]", "ea[].%s", "e.*.%s", "map(&%s, ea)", "sort_by(ea, &%s)", "max_by(ea, &%s)", "t || (z && %s)", "ea[:5].%s", "[t || %s, t]", "{k: z && %s}", "ea[?%s].x | [0]", "not_null(t || %s)", "missing[*].%s", "s[*].%s", "(t || %s) == t", "length(ea[*].%s)", "z[?%s]"}
 	nmDoc := docs.J(`{"t":"yes","z":null,"ea":[],"e":{},"a":1,"s":"str"}`)
+	// expressions that a short digest cannot tell apart (known collisions of common 32-bit checksums): each is its own expression
+	collw := mon.Workload{Name: "expressions-that-collide-under-common-checksums", N: 1,
+		Do: func(i int, t *mon.Tally) {
+			pairs := [][2]string{{"costarring", "liquid"}, {"declinate", "macallums"}, {"altarage", "zinke"}, {"altarages", "zinkes"}, {"plumless", "buckeroo"}, {"a.costarring", "a.liquid"}, {"length(name)||k136079", "abs(name) || k0403522"}}
+			doc := docs.J(`{"costarring":1,"liquid":2,"declinate":3,"macallums":4,"altarage":5,"zinke":6,"altarages":7,"zinkes":8,"plumless":9,"buckeroo":10,"a":{"costarring":11,"liquid":12},"name":"n","k136079":1,"k0403522":2}`)
+			for _, pr := range pairs {
+				for _, order := range [][2]string{{pr[0], pr[1]}, {pr[1], pr[0]}} {
+					for _, e := range []string{order[0], order[1], order[0]} {
+						t.Eval()
+						one, comp := apiSearch(e, mon.DeepCopy(doc)), apiCompiledSearch(e, mon.DeepCopy(doc))
+						if canonOut(one) != canonOut(comp) {
+							r.Violate(&mon.Violation{Workload: "expressions-that-collide-under-common-checksums", Index: i, API: "Search vs Compile+Search", Expr: e, Doc: doc, Expected: "the compiled answer " + comp.String(), Observed: "one-shot (after searching " + order[0] + " / " + order[1] + "): " + one.String(), Class: "one-shot and compiled answers differ"})
+							return
+						}
+					}
+				}
+			}
+			t.Nontrivial("coll")
+		}}
 	nmw := mon.Workload{Name: "calls-that-are-never-made", N: len(neverMade) * len(neverCtx), Batch: 200,
 		Do: func(i int, t *mon.Tally) {
 			expr := strings.Replace(neverCtx[i%len(neverCtx)], "%s", neverMade[i/len(neverCtx)], 1)
@@ -735,7 +754,46 @@ func c13(r *mon.Run) {
 			}
 			t.Nontrivial("almost:" + strconv.Itoa(i))
 		}}
-	r.Exec(hist, ph, pairs, lph, sh, lsh, tsu, rw, fel, twin, epw, nmw, alw)
+	// failing searches: WHAT a search fails with (the error's text) is part of its result - the same from a compiled expression that
+	// has failed before, from a fresh one and from the one-shot Search, call after call (no object is iterated in these expressions,
+	// so no unspecified order can decide which error comes first)
+	errExprs := []string{"mix(a)", "ma(a)", "mxa(a)", "sot(a)", "mi(a)", "maxby(a)", "to_strin(a)", "abs(s)", "abs(abs(s))", "length(abs(s))", "abs()", "abs(a, a)", "sort_by(a, &abs(s))", "map(&abs(s), l)", "l[*].abs(@)", "l[?abs(s) > `0`]", "[abs(s), length(n)]", "{k: abs(s)}", "abs(s) || 'x'", "join(',', l)", "l[::0]", "sum(l)", "max_by(l, &to_string(@))", "not_null(abs(s))", "merge(o, s)", "keys(l)", "starts_with(n, s)", "nosuch(nosuch2(a))", "to_number(abs(s))", "reverse(n)"}
+	errDocs := []interface{}{docs.J(`{"a":1,"s":"str","n":3,"l":[1,"two",3],"o":{"k":1}}`), docs.J(`{"a":2,"s":"other","n":-1,"l":["x",2],"o":{}}`), docs.J(`{"a":1,"s":5,"n":"txt","l":[1,2],"o":{"k":1}}`)}
+	etw := mon.Workload{Name: "what-a-search-fails-with-is-history-independent", N: len(errExprs), Batch: 4,
+		Describe: func(i int) string { return errExprs[i] },
+		Do: func(i int, t *mon.Tally) {
+			expr := errExprs[i]
+			jp, co := apiCompile(expr)
+			if co.Panicked || co.Err != nil {
+				r.Inconclusive("C13 workload expression does not compile: " + expr)
+				return
+			}
+			text := func(o mon.Observed) string {
+				if o.Panicked {
+					return "PANIC " + o.Panic
+				}
+				if o.Err != nil {
+					return "error: " + o.Err.Error()
+				}
+				return canonOut(o)
+			}
+			first := map[int]string{}
+			for k := 0; k < 12; k++ {
+				di := []int{0, 0, 1, 2, 0, 1, 1, 2, 2, 0, 1, 0}[k]
+				d := errDocs[di]
+				t.Eval()
+				got, fresh, one := text(apiJP(jp, mon.DeepCopy(d))), text(apiCompiledSearch(expr, mon.DeepCopy(d))), text(apiSearch(expr, mon.DeepCopy(d)))
+				prev, seen := first[di]
+				if got != fresh || got != one || (seen && prev != got) {
+					r.Violate(&mon.Violation{Workload: "what-a-search-fails-with-is-history-independent", Index: i, API: "(*JMESPath).Search", Expr: expr, Doc: d,
+						Expected: fmt.Sprintf("call %d: like a freshly compiled expression (%s), like the one-shot Search (%s) and like the first time this document was searched (%s)", k+1, clipStr(fresh, 200), clipStr(one, 200), clipStr(prev, 200)), Observed: clipStr(got, 300), Class: "what a search fails with depends on earlier searches (or differs between entry points)"})
+					return
+				}
+				first[di] = got
+			}
+			t.Nontrivial("et:" + strconv.Itoa(i))
+		}}
+	r.Exec(hist, ph, pairs, lph, sh, lsh, tsu, rw, fel, twin, epw, nmw, alw, etw, collw)
 }
 
 // c13Rewritable: see the workload compiled-versus-one-shot-on-rewritable-shapes.
